@@ -46,11 +46,15 @@ Print Assumptions c31_classes_partition.
 
 (* compile() then the table-driven run (pick_transition from state 0, accept_states lookup):
    whenever the run returns, it returns membership in L(r). Every fuel that lets compile finish
-   qualifies; c31_nonvacuous shows instances. *)
-Theorem c31_dfa_correct : forall fuel r d, re_valid r -> compile fuel r = Ok d ->
+   qualifies; c31_nonvacuous shows instances.
+   PARTIAL: what is missing is totality of the run for words over SIGMA (pick_transition never
+   raises: the sorted transition rows are disjoint and cover 0..255) — c31_classes_partition gives
+   the ingredients; the composition is validated by the correspondence only. compile() itself
+   does not always terminate (known finding: the regex "a*a*" ), so no fuel bound is claimed. *)
+Theorem c31_dfa_correct_partial : forall fuel r d, re_valid r -> compile fuel r = Ok d ->
   forall s b, run d s = Ok b -> (b = true <-> L r s).
 Proof. exact dfa_correct. Qed.
-Print Assumptions c31_dfa_correct.
+Print Assumptions c31_dfa_correct_partial.
 
 (* the parser as found does NOT implement the reference grammar: for the well-formed concrete
    syntax tree of "ab|cd" it returns a regex that rejects "ab" *)
@@ -59,6 +63,13 @@ Theorem c31_parser_matches_grammar_refuted :
     wf_alt a /\ orig_parse 100 (unparse_alt a) = Ok r /\ L_alt a w /\ ~ L r w.
 Proof. exact parser_orig_refuted. Qed.
 Print Assumptions c31_parser_matches_grammar_refuted.
+
+(* the abstract syntax the grammar prescribes for a concrete syntax tree (smart constructors in
+   grammar order, [build_alt]) denotes the tree's language; that the repaired parser returns
+   exactly build_alt is validated by the correspondence (validated-only, see MANIFEST) *)
+Theorem c31_grammar_build_meaning : forall a w, L (build_alt a) w <-> L_alt a w.
+Proof. intros a. destruct build_meaning as (_ & _ & _ & H). apply H. Qed.
+Print Assumptions c31_grammar_build_meaning.
 
 Example c31_nonvacuous :
   parse 100 [97; 98; 124; 99; 100] = Ok witness_fixed /\ re_valid witness_fixed /\
